@@ -27,7 +27,7 @@ CONSTANTS N,         \* module / arena ids 1..N
           Bug        \* "none" or the name of the forgotten add_reference
 
 AllHows == {"direct", "list", "dict", "tuple", "gdef", "clos"}
-AllFeat == {"owned", "import", "globals", "rehome"}
+AllFeat == {"owned", "import", "globals", "rehome", "loadfail"}
 Bugs == {"none", "load_no_ref", "freeze_no_forward", "add_to_heap_no_ref", "import_no_ref",
          "globals_build_no_ref", "from_globals_no_ref", "eval_no_globals_ref", "rehome_no_ref"}
 
@@ -113,13 +113,17 @@ NewModule(g) ==
     /\ UNCHANGED <<alive, hrefs, hd>>
 
 (* load("f", l = "sym") in open module k, then bind it `how`.
-   modules.rs::load_symbol: self.heap().add_reference(&module.heap). *)
-EvalLoad(k, f, i, how) ==
+   modules.rs::load_symbol: self.heap().add_reference(&module.heap).
+   A load statement binds its names one by one; with `c` it goes on to name a symbol that `f` does not
+   have: the statement fails, the evaluation ends with an error -- and `l` stays bound in the module,
+   which is used further.  The reference is owed for each name as it is bound, not for the statement. *)
+EvalLoad(k, f, i, how, c) ==
     /\ k \in Open /\ f \in FrozenMods /\ i \in 1..Len(syms[f]) /\ how \in Hows
+    /\ c => "loadfail" \in Feat
     /\ CanWrap(k, how, syms[f][i])
     /\ hrefs' = [hrefs EXCEPT ![k] = IF Bug = "load_no_ref" THEN @ ELSE @ \cup {f}]
     /\ syms' = [syms EXCEPT ![k] = Append(@, Mk(k, Len(@) + 1, how, syms[f][i], ViaOf("load", how, syms[f][i], f)))]
-    /\ Op("eval_load", k, f, i, 0, how, FALSE)
+    /\ Op("eval_load", k, f, i, 0, how, c)
     /\ UNCHANGED <<st, kind, alive, frefs, glob, hd>>
 
 (* Module::import_public_symbols(fm) then bind symbol i `how`.
@@ -275,7 +279,7 @@ Free(k) ==
 NextBuild ==
     \/ \E g \in {0} \cup FrozenGlobs : NewModule(g)
     \/ \E k \in Open, f \in FrozenMods : \E i \in 1..Len(syms[f]), how \in Hows :
-            EvalLoad(k, f, i, how) \/ ImportPublic(k, f, i, how)
+            EvalLoad(k, f, i, how, FALSE) \/ EvalLoad(k, f, i, how, TRUE) \/ ImportPublic(k, f, i, how)
     \/ \E k \in Open : Freeze(k)
     \/ \E g \in FrozenGlobs : ModuleFromGlobals(g)
     \/ \E f \in FrozenMods : \E i \in 1..Len(syms[f]) : GetOwned(f, i)
